@@ -612,38 +612,24 @@ def resampleStepwise(xin, yin, xout, avg=True):
     # loop through xout / the xout bins
     yout = []
     for i in range(1, len(bins)):
-        start = bins[i - 1]
-        end = bins[i]
-        chunk = yin[start - 1 : end]
-        length = xin[start - 1 : end + 1]
-        length = [length[j] - length[j - 1] for j in range(1, len(length))]
+        # input bins that can overlap the output interval [xout[i - 1], xout[i]]
+        first = max(bins[i - 1] - 1, 0)
+        last = min(bins[i], len(yin) - 1)
+
+        chunk = []
+        length = []  # overlap of each input bin with the output interval
+        width = []  # full width of each input bin
+        for k in range(first, last + 1):
+            overlap = min(xout[i], xin[k + 1]) - max(xout[i - 1], xin[k])
+            if overlap > 0:
+                chunk.append(yin[k])
+                length.append(overlap)
+                width.append(xin[k + 1] - xin[k])
 
         # if the xout lies outside the xin range
         if not len(chunk):
             yout.append(0)
             continue
-
-        # trim any partial right-side bins
-        if xout[i] < xin[min(end, len(xin) - 1)]:
-            fraction = (xout[i] - xin[end - 1]) / (xin[end] - xin[end - 1])
-            if fraction == 0:
-                chunk = chunk[:-1]
-                length = length[:-1]
-            elif avg:
-                length[-1] *= fraction
-            else:
-                chunk[-1] *= fraction
-
-        # trim any partial left-side bins
-        if xout[i - 1] > xin[start - 1]:
-            fraction = (xin[start] - xout[i - 1]) / (xin[start] - xin[start - 1])
-            if fraction == 0:
-                chunk = chunk[1:]
-                length = length[1:]
-            elif avg:
-                length[0] *= fraction
-            else:
-                chunk[0] *= fraction
 
         # return the sum or the average
         if [1 for c in chunk if (not hasattr(c, "__len__") and c is None)]:
@@ -652,7 +638,7 @@ def resampleStepwise(xin, yin, xout, avg=True):
             weighted_sum = sum([ch * ln for ch, ln in zip(chunk, length)])
             yout.append(weighted_sum / sum(length))
         else:
-            yout.append(sum(chunk))
+            yout.append(sum([ch * (ln / wd) for ch, ln, wd in zip(chunk, length, width)]))
 
     return yout
 
